@@ -35,6 +35,11 @@ type S struct {
 	Opts repl.Options
 }
 
+const globalsUnavailable = "UNAVAILABLE: "
+
+// GlobalsUnavailable tells that Globals() could not render the state (see there).
+func GlobalsUnavailable(g string) bool { return strings.HasPrefix(g, globalsUnavailable) }
+
 // limitWriter keeps the first outputLimit bytes a session prints. A generated program can print a string of hundreds of
 // megabytes in a loop: in the REPL that goes to the terminal, here it would pile up in the test process.
 type limitWriter struct {
@@ -150,7 +155,14 @@ func (s *S) Obj(src string) (res object.Object, err error) {
 }
 
 // Globals returns the saved form of all globals (sorted, one per line), the snapshot used to compare sessions.
-func (s *S) Globals() string {
+func (s *S) Globals() (out string) {
+	defer func() {
+		// the printed form of a global can be refused by the allocation guard (a value referencing one container from
+		// many places): nothing to compare then
+		if r := recover(); r != nil {
+			out = fmt.Sprintf("%s%v", globalsUnavailable, r)
+		}
+	}()
 	var b bytes.Buffer
 	_, err := s.St.SaveGlobals(&b)
 	if err != nil {
@@ -230,6 +242,9 @@ func CompareRuns(inputs []string, a, b []Res, ga, gb string, nameA, nameB string
 		if o.CompareErrorText && len(x.Errs) > 0 && firstLine(x.Errs[0]) != firstLine(y.Errs[0]) {
 			return fmt.Sprintf("input #%d %q: error %q with %s but %q with %s", i, inputs[i], x.Errs[0], nameA, y.Errs[0], nameB)
 		}
+	}
+	if strings.HasPrefix(ga, globalsUnavailable) || strings.HasPrefix(gb, globalsUnavailable) {
+		return ""
 	}
 	ga, gb = filterGlobals(ga, o.IgnoreGlobal), filterGlobals(gb, o.IgnoreGlobal)
 	if !o.SkipGlobals && ga != gb {
